@@ -898,6 +898,9 @@ def run(ctx):
         cases.append(c)
     # the one point the WGHT printer's shortcut excludes (hypothesis of wght_roundtrip): c+d+e+f equal to the default sum
     cases.append(dict(cur=[0.05, 0.7], sug=[0.06, 0.8, 0.0, 0.0, 0.1, 0.23333], stream='wght'))
+    # f close to, but not, the documented .33333 while c, d, e are at their defaults: the short form would lose it
+    for f in (0.3335, 0.3333, 0.333, 0.33334):
+        cases.append(dict(cur=[0.05, 0.7], sug=[0.06, 0.8, 0.0, 0.0, 0.0, f], stream='wght'))
     # the (few) history cases first, then the bulk of the attribute cases
     cases.sort(key=lambda c: 0 if c.get('stream') != 'attrs' else 1)
     for i in range(0, len(cases), 400):
